@@ -180,6 +180,13 @@ func (r *rewriter) visit(n ast.Node) {
 					id.Name = "vsync_"
 					r.changed, r.needV = true, true
 				}
+				// the watcher shuffles its scan list with math/rand seeded from the clock: route the draw through the
+				// scheduler package (deterministic under the scheduler, the real thing otherwise)
+				if id, ok := sel.X.(*ast.Ident); ok && id.Name == "rand" && sel.Sel.Name == "Int31n" {
+					id.Name = "vsync_"
+					sel.Sel.Name = "RandInt31n"
+					r.changed, r.needV = true, true
+				}
 			}
 		}
 		return true
